@@ -328,6 +328,43 @@ fn start_like_main(vpn: &str, hosts: &str) -> Result<(), (&'static str, String)>
     Core::new(settings, authenticator, tls, Shutdown::new()).map(|_| ()).map_err(|e| ("core_new", format!("{:?}", e)))
 }
 
+/// The value of every documented key when the settings file does not mention it (Config.tla
+/// DocumentedDefaults = CONFIGURATION.md), read the way main.rs reads the file, and the
+/// `Settings::default_*` functions the builder and the wizard use.
+fn run_defaults(c: &mut Ctx, d: &Value) {
+    c.rep.eval();
+    c.rep.nontrivial("defaults".to_string());
+    logcap::set_scenario("defaults");
+    let text = "[listen_protocols]\n[listen_protocols.http1]\n";
+    let parsed = catch(|| toml::from_str::<Settings>(text));
+    let s = match parsed {
+        Ok(Ok(s)) => s,
+        Ok(Err(e)) => { c.rep.violation_with("config:defaults:refused", format!("a settings file that only enables a protocol is refused: {}", e), || json!({"kind": "defaults", "file_text": text})); return; }
+        Err(p) => { c.rep.violation_with("config:defaults:panic", format!("panic: {}", p), || json!({"kind": "defaults", "file_text": text})); return; }
+    };
+    let want_b = |k: &str| d[k].as_bool().unwrap();
+    let want_n = |k: &str| d[k].as_u64().unwrap();
+    let mut diffs: Vec<String> = vec![];
+    let mut cmp = |key: &str, file: String, func: String, want: String| {
+        if file != want { diffs.push(format!("{}: omitted in the file means {}, documented {}", key, file, want)); }
+        if func != want { diffs.push(format!("{}: Settings::default_{}() is {}, documented {}", key, key.trim_end_matches("_secs"), func, want)); }
+    };
+    cmp("listen_address", s.get_listen_address().to_string(), Settings::default_listen_address().to_string(), d["listen_address"].as_str().unwrap().to_string());
+    cmp("ipv6_available", s.get_ipv6_available().to_string(), Settings::default_ipv6_available().to_string(), want_b("ipv6_available").to_string());
+    cmp("allow_private_network_connections", s.get_allow_private_network_connections().to_string(), Settings::default_allow_private_network_connections().to_string(), want_b("allow_private_network_connections").to_string());
+    cmp("tls_handshake_timeout_secs", s.get_tls_handshake_timeout().as_secs().to_string(), Settings::default_tls_handshake_timeout().as_secs().to_string(), want_n("tls_handshake_timeout_secs").to_string());
+    cmp("client_listener_timeout_secs", s.get_client_listener_timeout().as_secs().to_string(), Settings::default_client_listener_timeout().as_secs().to_string(), want_n("client_listener_timeout_secs").to_string());
+    cmp("connection_establishment_timeout_secs", s.get_connection_establishment_timeout().as_secs().to_string(), Settings::default_connection_establishment_timeout().as_secs().to_string(), want_n("connection_establishment_timeout_secs").to_string());
+    cmp("tcp_connections_timeout_secs", s.get_tcp_connections_timeout().as_secs().to_string(), Settings::default_tcp_connections_timeout().as_secs().to_string(), want_n("tcp_connections_timeout_secs").to_string());
+    cmp("udp_connections_timeout_secs", s.get_udp_connections_timeout().as_secs().to_string(), Settings::default_udp_connections_timeout().as_secs().to_string(), want_n("udp_connections_timeout_secs").to_string());
+    cmp("speedtest_enable", s.get_speedtest_enable().to_string(), Settings::default_speedtest_enable().to_string(), want_b("speedtest_enable").to_string());
+    c.rep.count("default_keys_compared", 9);
+    for df in diffs {
+        let key = df.split(':').next().unwrap_or("?").to_string();
+        c.rep.violation_with(format!("config:defaults:{}", key), df.clone(), || json!({"kind": "defaults", "file_text": text, "difference": df, "documented": d}));
+    }
+}
+
 fn run_row(c: &mut Ctx, r: &Value) {
     let d = c.env.dir.to_str().unwrap().to_string();
     let vpn = r["vpn"].as_str().unwrap().replace("@D@", &d);
@@ -595,6 +632,9 @@ fn run_totality(c: &mut Ctx, vectors: &[String]) {
         for r in read_tagged(f, "ROW") {
             run_row(c, &r);
         }
+        for d in read_tagged(f, "DEFAULTS") {
+            run_defaults(c, &d);
+        }
     }
     let thorough = tier_thorough();
     let creds_base = "[[client]]\nusername = \"ab\"\npassword = 'c\\d'\n\n[[client]]\nusername = \"\"\"e\"\"\"\npassword = \"f\\\"\"\n";
@@ -795,6 +835,9 @@ fn main() {
             }
             for h in read_tagged(f, "HOSTS") {
                 run_hosts(&mut c, &h);
+            }
+            for d in read_tagged(f, "DEFAULTS") {
+                run_defaults(&mut c, &d);
             }
             for r in read_tagged(f, "ROW") {
                 run_row(&mut c, &r);
